@@ -138,7 +138,7 @@ def decode_out(o):
     return r
 
 
-def replay_gate(eng, vc, spec, consts, int_names, base_query, max_models=6):
+def replay_gate(eng, vc, spec, consts, int_names, base_query, max_models=6, neutralisers=()):
     """sat model -> concrete run on the real code -> judge.  Returns (status, record)."""
     import z3
     tried = []
@@ -158,7 +158,16 @@ def replay_gate(eng, vc, spec, consts, int_names, base_query, max_models=6):
             tried.append({"inputs": {k: str(v) for k, v in fr.items()}, "error": f"{type(e).__name__}: {e}"[:300]})
         else:
             if why:
-                return "violation", {"inputs": enc, "inputs_rational": {k: str(v) for k, v in fr.items()},
+                attributed = None
+                for fid in neutralisers:      # counterfactual attribution to a known finding
+                    try:
+                        outs2 = [decode_out(o) for o in run_concrete(spec, enc, neutralise=[fid])]
+                        if not vc.judge(val, outs2):
+                            attributed = fid
+                            break
+                    except Exception:  # noqa
+                        pass
+                return "violation", {"attributed": attributed, "inputs": enc, "inputs_rational": {k: str(v) for k, v in fr.items()},
                                      "observed": [{k: v for k, v in o.items() if k != "mp"} for o in outs],
                                      "why": why, "attempts": attempt + 1}
             tried.append({"inputs": {k: str(v) for k, v in fr.items()}, "observed": [o.get("kind") for o in outs]})
@@ -192,15 +201,13 @@ def run_job(args):
         import z3
         from harness import concrete
         prop = importlib.import_module("props." + prop_name.lower())
-        consts_box = {}
+        neutralisers = tuple(getattr(prop, "NEUTRALISE", ()))
 
         def path(eng):
             ctx = Ctx()
             ctx.eng = eng
             ctx.spec = spec
             prop.prepare(spec, ctx)          # builds ctx.env (name -> proxy), ctx.consts (name -> z3 const), ctx.int_names
-            consts_box["consts"] = ctx.consts
-            consts_box["ints"] = ctx.int_names
             for c in getattr(ctx, "assume", []):
                 eng.add(c)
             outs = concrete.execute(spec, ctx.env)
@@ -213,49 +220,71 @@ def run_job(args):
                 r = eng.check(vc.query)
                 rec = None
                 if r == "sat":
-                    status, rec = replay_gate(eng, vc, spec, ctx.consts, ctx.int_names, vc.query)
+                    status, rec = replay_gate(eng, vc, spec, ctx.consts, ctx.int_names, vc.query, neutralisers=neutralisers)
                     r = status
                 recs.append((vc, r, rec))
             return recs
 
-        sys.setprofile(_profile)
-        try:
-            eng, paths = sx.explore(path, max_paths=opts.get("max_paths", 2000), timeout_ms=opts.get("timeout_ms", 10000),
-                                    budget_s=opts.get("job_budget_s"))
-        finally:
-            sys.setprofile(None)
-        res["truncated"] = eng.truncated
-        res["queries"] = eng.nq
-        res["solver_s"] = round(eng.tq, 3)
-        res["unknown_forks"] = eng.n_unknown_forks
-        res["budget_skipped"] = eng.n_budget_skipped
-        for p in paths:
-            res["paths"] += 1
-            if p.status == "unsupported":
-                res["unsupported"] += 1
-                if len(res["unsupported_why"]) < 3:
-                    res["unsupported_why"].append(p.value)
-                continue
-            if p.status == "abort":
-                res["aborted"] += 1
-                continue
-            for (vc, r, rec) in p.value:
-                res["vcs"] += 1
-                res["vc_names"][vc.name] = res["vc_names"].get(vc.name, 0) + 1
-                if vc.query is None:
-                    res["numeric_vcs"] += 1
-                if r == "unsat":
-                    res["unsat"] += 1
-                elif r == "unknown":
-                    res["unknown"] += 1
-                elif r == "unreproduced":
-                    res["sat_unreproduced"] += 1
-                    res.setdefault("unreproduced_samples", [])
-                    if len(res["unreproduced_samples"]) < 2:
-                        res["unreproduced_samples"].append({"vc": vc.name, **(rec or {})})
-                elif r in ("violation", "violation-concrete"):
-                    res["sat_replayed"] += 1
-                    v = {"vc": vc.name, "info": vc.info, **(rec or {})}
+        def explore_and_tally(into):
+            sys.setprofile(_profile)
+            try:
+                eng, paths = sx.explore(path, max_paths=opts.get("max_paths", 2000), timeout_ms=opts.get("timeout_ms", 10000),
+                                        budget_s=opts.get("job_budget_s"))
+            finally:
+                sys.setprofile(None)
+            into["truncated"] = eng.truncated
+            into["queries"] = eng.nq
+            into["solver_s"] = round(eng.tq, 3)
+            into["unknown_forks"] = eng.n_unknown_forks
+            into["budget_skipped"] = eng.n_budget_skipped
+            for p in paths:
+                into["paths"] += 1
+                if p.status == "unsupported":
+                    into["unsupported"] += 1
+                    if len(into["unsupported_why"]) < 3:
+                        into["unsupported_why"].append(p.value)
+                    continue
+                if p.status == "abort":
+                    into["aborted"] += 1
+                    continue
+                for (vc, r, rec) in p.value:
+                    into["vcs"] += 1
+                    into["vc_names"][vc.name] = into["vc_names"].get(vc.name, 0) + 1
+                    if vc.query is None:
+                        into["numeric_vcs"] += 1
+                    if r == "unsat":
+                        into["unsat"] += 1
+                    elif r == "unknown":
+                        into["unknown"] += 1
+                    elif r == "unreproduced":
+                        into["sat_unreproduced"] += 1
+                        into.setdefault("unreproduced_samples", [])
+                        if len(into["unreproduced_samples"]) < 2:
+                            into["unreproduced_samples"].append({"vc": vc.name, **(rec or {})})
+                    elif r in ("violation", "violation-concrete"):
+                        into["sat_replayed"] += 1
+                        into["violations"].append({"vc": vc.name, "info": vc.info, **(rec or {})})
+
+        explore_and_tally(res)
+        hit = sorted({v.get("attributed") for v in res["violations"] if v.get("attributed")})
+        if hit:
+            # the tree touches a known finding: re-explore with exactly that cause neutralised, so that the rest of the
+            # input space of this tree stays verified and any OTHER violation is still reported (DESIGN.md section 5)
+            from harness import neutralise as nz
+            restore = nz.install(hit)
+            resid = {k: ([] if isinstance(v, list) else ({} if isinstance(v, dict) else 0)) for k, v in res.items()
+                     if k in ("paths", "unsupported", "aborted", "vcs", "unsat", "unknown", "sat_replayed", "sat_unreproduced",
+                              "violations", "unsupported_why", "vc_names", "numeric_vcs")}
+            try:
+                explore_and_tally(resid)
+            finally:
+                restore()
+            res["counterfactual"] = {"neutralised": hit, "paths": resid["paths"], "vcs": resid["vcs"], "unsat": resid["unsat"],
+                                     "unknown": resid["unknown"], "unreproduced": resid["sat_unreproduced"],
+                                     "violations_on_real_code": len([v for v in resid["violations"] if not v.get("attributed")])}
+            for v in resid["violations"]:
+                if not v.get("attributed"):
+                    v["found_in_counterfactual_exploration"] = True
                     res["violations"].append(v)
         res["funcs"] = sorted(_W["funcs"])
         _W["funcs"] = set()
@@ -304,17 +333,125 @@ def main(prop_name, tier, seed, budget_s=None, procs=None, only=None):
     opts.setdefault("job_budget_s", 40 if tier == "quick" else 300)
     budget_s = budget_s or opts.get("budget_s") or (240 if tier == "quick" else 1500)
     procs = procs or int(os.environ.get("VERIF_PROCS", "16"))
-    results, skipped = [], 0
-    ctx = mp.get_context("fork")
-    with ctx.Pool(procs, maxtasksperchild=40) as pool:
-        it = pool.imap_unordered(run_job, [(prop_name, j, opts) for j in jobs], chunksize=1)
-        for r in it:
-            results.append(r)
-            if time.time() - t0 > budget_s:
-                skipped = len(jobs) - len(results)
-                pool.terminate()
-                break
+    hard_s = opts.get("job_hard_s") or (opts["job_budget_s"] * 2 + 30)
+    if os.environ.get("VERIF_POOL") == "mp":
+        results, skipped = [], 0
+        with mp.get_context("fork").Pool(procs, maxtasksperchild=40) as pool:
+            for r in pool.imap_unordered(run_job, [(prop_name, j, opts) for j in jobs], chunksize=1):
+                results.append(r)
+    else:
+        results, skipped = run_pool(prop_name, jobs, opts, procs, hard_s, t0 + budget_s)
     return finish(prop, PROP, tier, seed, jobs, results, skipped, t0, opts)
+
+
+def _child(conn, prop_name, opts):
+    """persistent worker: receives one job at a time, sends its result back; None = stop"""
+    try:
+        while True:
+            job = conn.recv()
+            if job is None:
+                break
+            try:
+                r = run_job((prop_name, job, opts))
+            except BaseException as e:  # noqa
+                r = {"job": job.get("id"), "spec": job, "error": f"child: {type(e).__name__}: {e}"}
+            conn.send(r)
+    except (EOFError, OSError):
+        pass
+    finally:
+        os._exit(0)
+
+
+def _killed_result(job, why):
+    return {"job": job.get("id", "?"), "spec": job, "paths": 0, "unsupported": 0, "aborted": 0, "truncated": True, "vcs": 0, "unsat": 0,
+            "unknown": 0, "sat_replayed": 0, "sat_unreproduced": 0, "violations": [], "known": [], "queries": 0, "solver_s": 0.0,
+            "funcs": [], "error": None, "unsupported_why": [], "vc_names": {}, "unknown_forks": 0, "numeric_vcs": 0,
+            "budget_skipped": 0, "killed": why, "wall_s": 0.0}
+
+
+def run_pool(prop_name, jobs, opts, procs, hard_s, deadline, recycle=40):
+    """persistent forked workers (the parent is initialised once, children inherit it), one job at a time each; a worker that
+    does not answer within hard_s seconds is killed and replaced, and its job is reported as inconclusive (z3 does not always
+    honour its own timeout inside nonlinear arithmetic)."""
+    from multiprocessing.connection import wait
+    worker_init()
+    importlib.import_module("props." + prop_name.lower())
+    ctx = mp.get_context("fork")
+    pending = list(reversed(jobs))
+    results = []
+    skipped = 0
+    workers = {}      # conn -> [proc, current job or None, start time, jobs done]
+
+    def spawn():
+        a, b = ctx.Pipe(duplex=True)
+        p = ctx.Process(target=_child, args=(b, prop_name, opts), daemon=True)
+        p.start()
+        b.close()
+        workers[a] = [p, None, 0.0, 0]
+        return a
+
+    def give(c):
+        w = workers[c]
+        if not pending:
+            return False
+        if w[3] >= recycle:          # recycle the worker (z3 AST memory)
+            retire(c)
+            c = spawn()
+            w = workers[c]
+        w[1] = pending.pop()
+        w[2] = time.time()
+        c.send(w[1])
+        return True
+
+    def retire(c, kill=False):
+        p = workers.pop(c)[0]
+        try:
+            if kill:
+                p.kill()
+            else:
+                c.send(None)
+        except Exception:  # noqa
+            pass
+        c.close()
+        p.join(5)
+
+    for _ in range(min(procs, len(pending))):
+        give(spawn())
+    while any(w[1] is not None for w in workers.values()):
+        busy = [c for c, w in workers.items() if w[1] is not None]
+        for c in wait(busy, timeout=1.0):
+            w = workers[c]
+            try:
+                r = c.recv()
+            except (EOFError, OSError):
+                r = _killed_result(w[1], "worker died without a result")
+                r["error"] = "worker process died without a result"
+                results.append(r)
+                retire(c, kill=True)
+                if pending:
+                    give(spawn())
+                continue
+            results.append(r)
+            w[1] = None
+            w[3] += 1
+            if time.time() > deadline and pending:
+                skipped += len(pending)
+                pending.clear()
+            give(c)
+        now = time.time()
+        for c in list(workers.keys()):
+            w = workers[c]
+            if w[1] is not None and now - w[2] > hard_s:
+                results.append(_killed_result(w[1], f"killed after {int(now - w[2])} s (solver did not return within its timeout)"))
+                retire(c, kill=True)
+                if now > deadline and pending:
+                    skipped += len(pending)
+                    pending.clear()
+                if pending:
+                    give(spawn())
+    for c in list(workers.keys()):
+        retire(c)
+    return results, skipped
 
 
 def finish(prop, PROP, tier, seed, jobs, results, skipped, t0, opts):
@@ -330,6 +467,7 @@ def finish(prop, PROP, tier, seed, jobs, results, skipped, t0, opts):
     nontrivial = set()
     samples = []
     truncated = 0
+    killed = 0
     vc_names = {}
     known_hit = {}
     n_viol = 0
@@ -345,6 +483,7 @@ def finish(prop, PROP, tier, seed, jobs, results, skipped, t0, opts):
         solver_s += r["solver_s"]
         funcs.update(r["funcs"])
         truncated += bool(r["truncated"])
+        killed += bool(r.get("killed"))
         for k, v in r["vc_names"].items():
             vc_names[k] = vc_names.get(k, 0) + v
         if r["paths"] >= 2 or r["queries"] > 0:
@@ -354,7 +493,10 @@ def finish(prop, PROP, tier, seed, jobs, results, skipped, t0, opts):
                             "paths": r["paths"], "vcs": r["vcs"], "unsat": r["unsat"], "unknown": r["unknown"],
                             "solver_s": r["solver_s"]})
         for v in r["violations"]:
-            fid = None
+            fid = v.get("attributed")
+            if fid and not any(f["id"] == fid and f.get("status") == "known" and PROP in f.get("properties", [])
+                               for f in known.get("findings", [])):
+                fid = None            # only findings listed as known for this property may absorb a witness
             if hasattr(prop, "attribute"):
                 try:
                     fid = prop.attribute(spec, v, known)
@@ -401,7 +543,7 @@ def finish(prop, PROP, tier, seed, jobs, results, skipped, t0, opts):
             "decided_without_final_query_note": "obligations whose verdict needs no final solver query: variable-free (ground) values compared "
             "numerically at 50 digits, and per-path structural facts (e.g. the outcome kind of a solver-feasible path)",
             "unknown": tot["unknown"], "sat_replayed": tot["sat_replayed"], "sat_unreproduced": tot["sat_unreproduced"],
-            "unsupported_paths": tot["unsupported"], "truncated_jobs": truncated, "unknown_forks": tot["unknown_forks"],
+            "unsupported_paths": tot["unsupported"], "truncated_jobs": truncated, "killed_jobs": killed, "unknown_forks": tot["unknown_forks"],
             "inconclusive_total": inconclusive, "queries_skipped_job_time_budget": tot["budget_skipped"],
             "job_time_budget_s": opts.get("job_budget_s"),
             "solver_queries": tot["queries"], "solver_time_s": round(solver_s, 2),
